@@ -412,6 +412,26 @@ Theorem C01_test_fuel_suffices row f ts st rest :
 Proof. exact (test_fuel_suffices row f ts st rest). Qed.
 Print Assumptions C01_test_fuel_suffices.
 
+(* operations CPython performs on Python numbers with another outcome than the float operation (division by a literal zero:
+   ZeroDivisionError; a power of two literals: OverflowError, complex or a huge int) are outside the subset: every accepted
+   statement is py_ok — no division whose operands may both be Python numbers unless the divisor is a non-zero literal, no power
+   whose operands may both be Python numbers *)
+Theorem C01_accepted_statement_has_no_python_number_trap row ts y i k0 e :
+  stmt_of_tokens row ts = Some (y, SAssign i k0 e) -> py_ok e = true.
+Proof. exact (stmt_of_tokens_py_ok row ts y i k0 e). Qed.
+Print Assumptions C01_accepted_statement_has_no_python_number_trap.
+Theorem C01_python_number_instance :
+  stmt_of_equation (row_of ["Y"; "X"]) "Y = X * (1/0)" = None /\
+  stmt_of_equation (row_of ["Y"; "X"]) "Y = X + (-8) ** 0.5" = None /\
+  stmt_of_equation (row_of ["Y"; "X"]) "Y = X * 10.0 ** 400" = None /\
+  stmt_of_equation (row_of ["Y"; "X"]) "Y = max(1, X) / 0" = None /\
+  stmt_of_equation (row_of ["Y"; "X"]) "Y = X / 0 + 1 / 4 + 2 / -3 + X ** 2 + 2 ** X"
+  = Some ("Y", SAssign 0 0%Z (EBin OAdd (EBin OAdd (EBin OAdd (EBin OAdd (EBin ODiv (ERead 1 0%Z) (ENum "0")) (EBin ODiv (ENum "1") (ENum "4")))
+                                                                  (EBin ODiv (ENum "2") (ENum "-3"))) (EBin OPow (ERead 1 0%Z) (ENum "2")))
+                                        (EBin OPow (ENum "2") (ERead 1 0%Z)))).
+Proof. exact python_number_operations. Qed.
+Print Assumptions C01_python_number_instance.
+
 (* the shapes of comparisons / conditionals the model does not read are FAIL-CLOSED, not misread:
    the arithmetic parser never consumes a comparison operator or if / else / and / or / not — not at the top, not inside
    parentheses, not in the arguments of a call (so a conditional or a comparison nested there is never part of an accepted
